@@ -7,6 +7,7 @@ import (
 
 // TestReplay re-executes the case stored in $VERIF_REPLAY, bypassing rapid. It fails iff the stored case still fails.
 func TestReplay(t *testing.T) {
+	setT(t)
 	if envReplay == "" {
 		t.Skip("VERIF_REPLAY not set")
 	}
